@@ -6,7 +6,7 @@ from debian_inspector import deb822
 
 ID = 'C05'
 LEVEL = 'proof'
-THEOREMS = [('DebInspector.Thm.C05', ['Props.C05.numbers_sublist', 'Props.C05.numbers_increasing'])]
+THEOREMS = [('DebInspector.Thm.C05', ['Props.C05.sound', 'Props.C05.go_final', 'Props.C05.numbers_sublist', 'Props.C05.numbers_increasing'])]
 TRUSTED = [
     'Lean 4.33.0 kernel',
     'reading of the property as Props.C05.holdsOn (five clauses over the source lines split at LF, CRLF, CR)',
@@ -18,14 +18,16 @@ ASSUMPTIONS = ['texts are str objects without lone surrogates']
 RULE = ('exhaustive: all sequences of <= L lines over 11 line kinds (A: v, A:, Licence: x, space-c, tab-c, space-dot, empty, two spaces, FF, junk, '
         'a-FF-b: v), LF-terminated, plus the same with terminators LF/CRLF/CR/mixed and optional final newline from the seed; random texts; '
         'the stored copyright/control data files. non-trivial = at least two different line kinds')
-TECHNIQUE = ('Lean 4 theorem by induction over the line list with the loop state (reported numbers are a sublist of the source numbers) + '
-             'executable five-clause spec on every observation + exhaustive small-scope correspondence')
-LEVEL_TEXT = ('Props.C05.numbers_sublist / numbers_increasing: for every text, the line numbers reported by the model of the generator loop, '
-              'flattened in result order, are a sublist of 1..n - so every source line is reported at most once, with numbers strictly increasing '
-              'and in range (clause 1) - proved in Lean 4 by induction over the line list with the loop state, for every classifier. '
-              'Clauses 2-5 (contiguity inside a field, own text, completeness, paragraph separation) are decided by the executable specification '
-              'on every implementation observation and by exhaustive correspondence over all sequences of <= 4/5 lines over 11 line kinds; '
-              'they are not yet theorems.')
+TECHNIQUE = ('Lean 4 theorem Props.C05.sound: all five clauses for every text, by an invariant over the generator loop (accumulated output + abstract open paragraph) '
+             'and a sublist argument for the numbers + the same executable spec on every observation + exhaustive small-scope correspondence')
+LEVEL_TEXT = ('Props.C05.sound: for every text (any number of lines, any line kinds and terminators) the model of get_paragraphs_as_field_groups satisfies the whole property: '
+              'every source line is reported at most once under its true 1-based number with numbers strictly increasing over the whole result (numbers_sublist: the reported numbers are a sublist of 1..n), '
+              'numbers are contiguous inside a field, every reported line carries its own text (declaration minus "Name:" and surrounding blanks under the lower-cased name with licence -> license; '
+              'continuation minus trailing blanks; an unparsable line verbatim as a one-line unknown paragraph), the only unreported lines are blank lines and value-less declarations, '
+              'and consecutive paragraphs are separated by an unreported blank line or one of them is an unparsable line. Proved in Lean 4 by induction over the line list (go_final) with the invariant '
+              '"the output so far satisfies every clause up to the current line, and the open paragraph is a run of fields covering a contiguous interval of lines, each starting at a declaration line". '
+              'The model (loop, look-ahead, trailing-blank trimming, the two line classifiers) is tied to the code by exhaustive correspondence over all sequences of <= 4/5 lines over 11 line kinds, '
+              'random texts and the stored data files; holdsOn is evaluated on every implementation observation.')
 LEVEL_NOTE = ('Trusted: Lean kernel; axioms propext, Classical.choice, Quot.sound only; model tied to the code by exhaustive small-scope '
               'correspondence; the hand recognisers stand for the two regular expressions.')
 
